@@ -430,8 +430,9 @@ func runFed(cfg *runCfg, prop string) error {
 			obs := fedRun(fed, q.Text, opName, opVals)
 			for _, cl := range obs.Calls {
 				if cl.Fault != "" {
-					nfaults++
+					nfaults += cl.Entries // every entry of every failure is owed to the client
 					doc.Dist["fault:"+cl.Fault]++
+					doc.Dist[fmt.Sprintf("error-entries:%d", cl.Entries)]++
 				}
 			}
 			c := sh.File()
@@ -631,6 +632,13 @@ func runFed(cfg *runCfg, prop string) error {
 				unknown := fedRun(fed, q.Text, "NoSuchOperation", opVals)
 				c.Printf("Definition unk%d := %s.\n", id, c.observed(unknown, fed))
 				oracle = fmt.Sprintf("c17_holds exp%d obs%d red%d && (Nat.leb %d 1 || c17_unknown_name_holds unk%d)", id, id, id, len(parsed.Operations), id)
+				// ... no name at all, with several operations to choose from, names nothing either
+				if len(parsed.Operations) > 1 {
+					missing := fedRun(fed, q.Text, "", opVals)
+					c.Printf("Definition miss%d := %s.\n", id, c.observed(missing, fed))
+					oracle += fmt.Sprintf(" && c17_unknown_name_holds miss%d", id)
+					doc.Dist["operation-name:missing"]++
+				}
 				// ... and a name that is an operation's name only up to case names nothing
 				folded := strings.ToUpper(opName)
 				if folded == opName {
@@ -663,7 +671,7 @@ func runFed(cfg *runCfg, prop string) error {
 					oracle += fmt.Sprintf(" && c17_reuse_holds reuse%d", id)
 				}
 			}
-			c.Printf("Eval vm_compute in (%d%%nat, %s, %s, %s).\n", id, model, oracle, guards)
+			c.Printf("Eval vm_compute in (\"%d\"%%string, %s, %s, %s).\n", id, model, oracle, guards)
 			key, _ := json.Marshal(one)
 			crosses := map[string]bool{}
 			for _, cl := range obs.Calls {
